@@ -209,6 +209,26 @@ Theorem C01_regenerated_run_refines_all : forall evs,
 Proof. exact gen_alpha_run_refines_all. Qed.
 Print Assumptions C01_regenerated_run_refines_all.
 
+(* codec + tree + nodes, ALL REGENERATED, in one loop (Proofs/TranslateRunAllFacts.v): the numeric trees run with the
+   key bytes produced by the regenerated Transform of Gen/KeysGen.v (not the model's encoders) and the returned keys
+   read back by the regenerated Restore, through the regenerated Insert / Delete / Search and thin methods, give on
+   every history_ok history over all twelve operations the outputs of Model/Api.run = the reference map *)
+Theorem C01_regenerated_numeric_trees_codec_in_the_loop : forall evs,
+  (Forall unsigned64_op (map fst evs) -> history_ok (KUnsigned 8) (map fst evs) = true -> short_keys2 (KUnsigned 8) (map fst evs) ->
+   g_unsigned64_run evs g_init = snd (Api.run (KUnsigned 8) Api.init (map fst evs)) /\
+   g_unsigned64_run evs g_init = snd (ideal_run (KUnsigned 8) [] (map fst evs))) /\
+  (Forall signed64_op (map fst evs) -> history_ok (KSigned 8) (map fst evs) = true -> short_keys2 (KSigned 8) (map fst evs) ->
+   g_signed64_run evs g_init = snd (Api.run (KSigned 8) Api.init (map fst evs)) /\
+   g_signed64_run evs g_init = snd (ideal_run (KSigned 8) [] (map fst evs))) /\
+  (Forall float64_op (map fst evs) -> history_ok (KFloat 8) (map fst evs) = true -> short_keys2 (KFloat 8) (map fst evs) ->
+   g_float64_run evs g_init = snd (Api.run (KFloat 8) Api.init (map fst evs)) /\
+   g_float64_run evs g_init = snd (ideal_run (KFloat 8) [] (map fst evs))).
+Proof.
+  intros evs. split; [exact (gen_unsigned64_run_refines evs)|split; [exact (gen_signed64_run_refines evs)|exact (gen_float64_run_refines evs)]].
+Qed.
+Print Assumptions C01_regenerated_numeric_trees_codec_in_the_loop.
+
+
 (* the glue around the translated methods, regenerated as Gen/Bindings.v (Proofs/BindingFacts.v): the codec the byte-string
    tree holds — AlphabeticalOrderKey.Transform / Restore of keys.go, translated — IS the pair (alpha_tr, alpha_rs) the
    end-to-end theorem above plugs into the regenerated methods; every constructor builds its tree with root and size at
